@@ -91,6 +91,43 @@ def fieldResToJson : FieldRes → Json
   | .discarded => Json.mkObj [("err", .str "FieldError"), ("why", .str "discarded")]
   | .undefined => Json.mkObj [("err", .str "FieldError"), ("why", .str "undefined")]
 
+def storesOfJson (st : Json) : P (List MemStore) := do
+  (← jArr (jFieldD st "stores" (.arr #[]))).mapM fun s =>
+    match s with
+    | .null => pure ({ size := none, table := [] } : MemStore)
+    | s => do pure ({ size := some (← s.getNat?), table := [] } : MemStore)
+
+/-- compile the graph of the node `o` of `b` and run the VM model on it (the second half of a `call` step) -/
+def runNode (b : Bag) (o : BNode) (st : Json) (env : String → Option Val) (stores : List MemStore) : P Json := do
+  let g := b.compileGraph o
+  if !g.validate then pure (Json.mkObj [("err", .str "AssertionError"), ("graph_ok", .bool g.okCB)])
+  else
+    let impureFns ← jStrs (jFieldD st "impure" (.arr #[]))
+    let constFns ← (← jArr (jFieldD st "const_fns" (.arr #[]))).mapM fun r => do
+      match ← jArr r with
+      | [n, v] => pure ((← n.getStr?), (← valOfJson v))
+      | _ => throw "bad const_fns"
+    let w : World := { stores := stores, impureFns := impureFns, constFns := constFns }
+    match g.call env w 10000000 with
+    | none => throw "out of fuel"
+    | some (out, _) =>
+      let r : Json := match out with
+        | .done (.val v) _ => Json.mkObj [("ok", valToJson v)]
+        | .done _ _ => Json.mkObj [("err", .str "internal")]
+        | .raised e _ => Json.mkObj [("err", errToJson e)]
+        | .next _ => Json.mkObj [("err", .str "internal")]
+      -- what `CM.C02.node_pipeline_value` predicts, when its hypotheses hold: the value of the node's term
+      -- `node_compile_ok` predicts `g.okB` from the first two conjuncts
+      let edgesWf := b.edges.all (·.edge.wf)
+      let hyp := b.wfB && edgesWf && acyclicB b.edges && g.callOKB env && impureFns.isEmpty
+      let dcfg : DenCfg := { env := env, callNo := 0, impureFns := impureFns, constFns := constFns }
+      let pred : Json := match (if hyp then b.term 64 o else none) with
+        | some t => if t.noMissingB then (match (t.den dcfg).v with | .ok v => Json.mkObj [("ok", valToJson v)] | .error e => Json.mkObj [("err", errToJson e)]) else .null
+        | none => .null
+      pure (Json.mkObj [("r", r), ("sig", toJson g.signature), ("graph_ok", .bool g.okCB),
+        ("call_ok", .bool (g.callOKB env)), ("nodes", toJson g.nodes.length), ("pipeline_hyp", .bool hyp), ("compile_hyp", .bool (b.wfB && edgesWf)), ("okB", .bool g.okB),
+        ("predicted", pred)])
+
 /-- `{"op":"bag","steps":[...]}`; steps: `connect` (left, right), `make` (the arguments of `EdgesBag(...)`),
 `loopback` (bag, fbag), `compile` (bag, names), `reverse` (ctx, outputs, next). -/
 def opBag (j : Json) : P Json := do
@@ -137,45 +174,38 @@ def opBag (j : Json) : P Json := do
       let b ← bagOfJson (← jField st "bag")
       let name ← (← jField st "name").getStr?
       let env ← envOfJson (jFieldD st "env" (Json.mkObj []))
-      let stores ← (← jArr (jFieldD st "stores" (.arr #[]))).mapM fun s =>
-        match s with
-        | .null => pure ({ size := none, table := [] } : MemStore)
-        | s => do pure ({ size := some (← s.getNat?), table := [] } : MemStore)
+      let stores ← storesOfJson st
       match b.validate with
       | .error e => pure (Json.mkObj [("err", compileErrToJson e)])
       | .ok av =>
         match b.getNode av name with
-        | .node o | .virtualInput (some o) =>
-          let g := b.compileGraph o
-          if !g.validate then pure (Json.mkObj [("err", .str "AssertionError"), ("graph_ok", .bool g.okCB)])
-          else
-            let impureFns ← jStrs (jFieldD st "impure" (.arr #[]))
-            let constFns ← (← jArr (jFieldD st "const_fns" (.arr #[]))).mapM fun r => do
-              match ← jArr r with
-              | [n, v] => pure ((← n.getStr?), (← valOfJson v))
-              | _ => throw "bad const_fns"
-            let w : World := { stores := stores, impureFns := impureFns, constFns := constFns }
-            match g.call env w 10000000 with
-            | none => throw "out of fuel"
-            | some (out, _) =>
-              let r : Json := match out with
-                | .done (.val v) _ => Json.mkObj [("ok", valToJson v)]
-                | .done _ _ => Json.mkObj [("err", .str "internal")]
-                | .raised e _ => Json.mkObj [("err", errToJson e)]
-                | .next _ => Json.mkObj [("err", .str "internal")]
-              -- what `CM.C02.node_pipeline_value` predicts, when its hypotheses hold: the value of the node's term
-              -- `node_compile_ok` predicts `g.okB` from the first two conjuncts
-              let edgesWf := b.edges.all (·.edge.wf)
-              let hyp := b.wfB && edgesWf && acyclicB b.edges && g.callOKB env && impureFns.isEmpty
-              let dcfg : DenCfg := { env := env, callNo := 0, impureFns := impureFns, constFns := constFns }
-              let pred : Json := match (if hyp then b.term 64 o else none) with
-                | some t => if t.noMissingB then (match (t.den dcfg).v with | .ok v => Json.mkObj [("ok", valToJson v)] | .error e => Json.mkObj [("err", errToJson e)]) else .null
-                | none => .null
-              pure (Json.mkObj [("r", r), ("sig", toJson g.signature), ("graph_ok", .bool g.okCB),
-                ("call_ok", .bool (g.callOKB env)), ("nodes", toJson g.nodes.length), ("pipeline_hyp", .bool hyp), ("compile_hyp", .bool (b.wfB && edgesWf)), ("okB", .bool g.okB),
-                ("predicted", pred)])
+        | .node o | .virtualInput (some o) => runNode b o st env stores
         | .virtualInput none => pure (Json.mkObj [("identity", .bool true)])
         | .discarded | .undefined => pure (Json.mkObj [("err", .str "FieldError")])
+    | "call_tuple" =>
+      -- `_compile((n1, ..., nk))`: a product node over the requested nodes; a virtual name that is no input becomes a new input
+      let b ← bagOfJson (← jField st "bag")
+      let ns ← jStrs (← jField st "names")
+      let env ← envOfJson (jFieldD st "env" (Json.mkObj []))
+      let stores ← storesOfJson st
+      match b.validate with
+      | .error e => pure (Json.mkObj [("err", compileErrToJson e)])
+      | .ok av =>
+        let res := ns.foldl (fun (acc : Option (Bag × List BNode)) n =>
+          match acc with
+          | none => none
+          | some (bb, outs) =>
+            match b.getNode av n with
+            | .node o | .virtualInput (some o) => some (bb, outs ++ [o])
+            | .virtualInput none =>
+              let i : BNode := { id := bb.next, name := n }
+              some ({ bb with inputs := bb.inputs ++ [i], next := bb.next + 1 }, outs ++ [i])
+            | .discarded | .undefined => none) (some (b, []))
+        match res with
+        | none => pure (Json.mkObj [("err", .str "FieldError")])
+        | some (bb, outs) =>
+          let (b', p) := bb.withProduct outs
+          runNode b' p st env stores
     | _ => throw s!"unknown bag step {t}"
   pure (Json.mkObj [("outs", .arr outs.toArray)])
 
